@@ -19,10 +19,24 @@ SELECT = {"ok": [b"\x05\x00"], "split": [b"\x05", b"\x00"], "m2": [b"\x05\x02"],
           "none": [b"\x05\xff"], "badver": [b"\x04\x00"], "m1": [b"\x05\x01"]}
 
 
+class SyncReplyTransport(sk.proto_helpers.StringTransport):
+    """an in-memory peer that answers the greeting from inside the client's write() call (a schedule a
+    real reactor does not produce, but in-memory transports and tests do)"""
+    answered = False
+
+    def write(self, data):
+        sk.proto_helpers.StringTransport.write(self, data)
+        if not self.answered and self.value() == b"\x05\x01\x00":
+            self.answered = True
+            self.proto.dataReceived(b"\x05\x00")
+
+
 def vector(req, kind, host, port, sel="ok"):
     """run one request through the public entry point and record what was written: before the server's
     method selection (first), after a partial selection message (mid), after the whole of it (second)"""
     ep = sk.FakeProxyEndpoint()
+    if sel == "sync":
+        ep.transport_factory = SyncReplyTransport
     fired = []
     err = False
     try:
@@ -40,7 +54,13 @@ def vector(req, kind, host, port, sel="ok"):
     mid = b""
     if ep.proto is not None:
         first = ep.tr.value()
-        chunks = SELECT[sel]
+        if sel == "sync":
+            # the selection was delivered during the greeting's write: greeting and request are already out
+            first, second_sync = first[:3], first[3:]
+            ep.tr.clear()
+            ep.tr.write = lambda data, tr=ep.tr: sk.proto_helpers.StringTransport.write(tr, data)
+            sk.proto_helpers.StringTransport.write(ep.tr, first)
+        chunks = SELECT.get(sel, [])
         try:
             for i, c in enumerate(chunks):
                 ep.proto.dataReceived(c)
@@ -50,6 +70,8 @@ def vector(req, kind, host, port, sel="ok"):
             err = True
             ep.proto.connectionLost(failure.Failure(error.ConnectionLost("after exception")))
         second = ep.tr.value()[len(first):]
+        if sel == "sync":
+            second = second_sync + second
     if fired and isinstance(fired[0], failure.Failure):
         err = True
     name = host.encode("utf-8") if isinstance(host, str) else bytes(host)
